@@ -29,7 +29,8 @@ RULE = ("programs are drawn by the typed, scope-aware generator G-PROG (Hypothes
         "function templates of C11 and a seeded stride of the class-skeleton product of C12 run as plain "
         "programs (2 configurations by rotation). Interactions (G-NEST): every construct inside every "
         "other one - 19 containers x 19 containers x 25 items, 19 containers x 25 x 25 adjacent items, "
-        "four containers deep x 25 items, 4 000 (thorough 40 000) seeded random programs 3-5 containers "
+        "four containers deep x 26 items, every item TWICE in one scope with the first copy guarded (never / "
+        "always / schedule-dependent branch, zero-iteration loop; 19 containers x 26 items x 5 forms), 4 000 (thorough 40 000) seeded random programs 3-5 containers "
         "deep with 1-3 items; 2 probe schedules, one configuration by rotation (thorough: 3 "
         "schedules, all 8). Data values: the same programs, the pool and the zoo with their literals "
         "rewritten into falsy values, negative numbers, empty collections or non-ASCII text (one mode by "
@@ -67,13 +68,17 @@ def _nest_shard(item):
     from ..kit import Kit
     idx, nshards, all8 = item[:3]
     part = new_part()
-    cases = list(nest.triples()) + list(nest.item_pairs()) + list(nest.deep())
+    cases = nest.catalogue()
     if len(item) > 3:
         # seeded random programs 3-5 containers deep with 1-3 items
-        cases += nest.random_deep(item[3], 4000 if not all8 else 40000)
+        cases += [("nest", cs, its) for cs, its in nest.random_deep(item[3], 4000 if not all8 else 40000)]
     for k in range(idx, len(cases), nshards):
-        cs, its = cases[k]
-        src = nest.build(cs, its)
+        entry = cases[k]
+        src = nest.build_any(entry)
+        if entry[0] == "nest":
+            cs, its = entry[1], entry[2]
+        else:
+            cs, its = (entry[1],), (entry[2], entry[2])
         if src is None:
             part["discarded"]["nest:item-does-not-fit-the-hole"] += 1
             continue
@@ -83,16 +88,16 @@ def _nest_shard(item):
                 part["discarded"]["nest:original-raises:%s" % o["err"]] += 1
                 continue
             part["evaluations"] += 1
-            part["classes"]["nest:%d-containers-%d-items" % (len(cs), len(its))] += 1
-            part["nontrivial"].add(key_hash(cs, its, sched))
+            part["classes"]["nest:%d-containers-%d-items" % (len(cs), len(its)) if entry[0] == "nest" else "nest:repeated-item"] += 1
+            part["nontrivial"].add(key_hash(entry, sched))
             cfgs = env.ALL_CFGS if all8 else [env.ALL_CFGS[(k + sched) % 8]]
             status, failures, _ = check_program(src, cfgs, sched, orig=o)
             if status == "fail":
                 cfg, diffs, text = failures[0]
                 if len(part["violations"]) < 3:
                     part["violations"].append({"payload": program_payload(src, cfg, sched), "diffs": diffs,
-                                               "what": "[interaction %s > %s] behaves differently after conversion (%s)"
-                                                       % (" > ".join(cs), " ; ".join(its), env.cfg_name(cfg))})
+                                               "what": "[interaction %s] behaves differently after conversion (%s)"
+                                                       % (nest.label(entry), env.cfg_name(cfg))})
                 break
     if idx == 0:
         part["samples"].append(nest.build(("closure", "for_break"), ("return_cond",)))
@@ -108,10 +113,10 @@ def _perturbed_shard(item):
     from ..kit import Kit
     idx, nshards, all8 = item
     part = new_part()
-    cases = list(nest.triples()) + list(nest.item_pairs()) + list(nest.deep())
+    cases = nest.catalogue()
     sources = []
     for k in range(idx, len(cases), nshards):
-        src = nest.build(*cases[k])
+        src = nest.build_any(cases[k])
         if src is not None:
             sources.append((k, src))
     progs = sorted(pool.all_programs().items())
@@ -165,11 +170,11 @@ def plain_programs(report):
     from ..gen import nest
     others = hosts.available_other_hosts()
     if others:
-        ncases = list(nest.triples()) + list(nest.item_pairs()) + list(nest.deep())
+        ncases = nest.catalogue()
         stride = 29 if quick else 5
         hcases = []
         for k in range(report.seed % stride, len(ncases), stride):
-            src = nest.build(*ncases[k])
+            src = nest.build_any(ncases[k])
             if src is not None:
                 hcases.append((src, [env.ALL_CFGS[k % 8]]))
         # ... and the pool (with the zoo and the version-sensitive programs) under the other hosts
